@@ -6,7 +6,7 @@
       0<=f<6 /\ 0<=l<=30 /\ 0<=k<4^l /\ c = f*2^61 + (2k+1)*4^(30-l). *)
 From Coq Require Import ZArith List Bool Floats Reals.
 From Geo Require Import Base.GoPrim Gen.CellIDFull Model.CellIDTables
-  Base.F64Arith Proofs.C01_Tables Proofs.C01_Algebra Proofs.C01_IJ Proofs.C01_Advance Proofs.C01_Iter Proofs.C01_Point Proofs.C01_Text Proofs.C01_Hilbert Proofs.C01_Inverse Proofs.C01_Nbr Proofs.StUV_Mono.
+  Base.F64Arith Proofs.C01_Tables Proofs.C01_Algebra Proofs.C01_IJ Proofs.C01_Advance Proofs.C01_Iter Proofs.C01_Point Proofs.C01_Text Proofs.C01_Hilbert Proofs.C01_Inverse Proofs.C01_Nbr Proofs.C01_WrapInside Proofs.C01_Nbr2 Proofs.C01_WrapSide Proofs.C01_WrapAdj Proofs.StUV_Mono.
 (* the hand models compared with Go by the observer (built with this file: one make target) *)
 From Geo Require Model.C01Obs.
 From Geo Require Import Model.CellIDNbr.
@@ -207,28 +207,37 @@ Print Assumptions c01_hilbert_face_to_face.
 
 (** neighbours, same-face part.  [at_pos c f l a b]: c is the valid level-l cell of face f at grid
     position (a,b) (faceIJOrientation c returns a leaf inside that square).  EdgeNeighbors calls
-    cellIDFromFaceIJWrap (a float round trip) even inside the face, hence the premise
-    [H_WRAP_INSIDE] (float64 arithmetic only: for 0 <= i,j < 2^30 the wrap function is
-    cellIDFromFaceIJ — every operation on that path is exact).
-    TODO (not closed): discharge H_WRAP_INSIDE (needs exactness of float_of_Z, *2^-30, /1, floor);
-    cross-face entries (H-WRAP proper: the leaf just outside a face side is the adjacent leaf of
-    the neighbouring face) — covered by [S] against the cube model on every run. *)
-Theorem c01_edge_neighbors_same_face_under_H : H_WRAP_INSIDE -> forall c f l a b, at_pos c f l a b ->
+    cellIDFromFaceIJWrap (a float round trip) even inside the face; [c01_wrap_inside] shows that
+    for 0 <= i,j < 2^30 that function IS cellIDFromFaceIJ (every float operation on the path is
+    exact), so the EdgeNeighbors theorems are closed.
+    H-WRAP on the 24 face sides is closed below ([c01_wrap_face_sides*]): one step outside a side, the
+    wrap function returns the explicit leaf [target side f t] of the neighbouring face, which shares an
+    edge with the boundary leaf in the integer cube model.
+    TODO (not closed): coordinates outside BOTH ranges (beyond a cube corner; used by the diagonal entries
+    of VertexNeighbors/AllNeighbors at cube corners) and lifting the leaf-level side theorem to the
+    grid position of cross-face EdgeNeighbors/AllNeighbors entries at coarser levels — covered by [S]
+    against the cube model on every run. *)
+Theorem c01_wrap_inside : forall f i j, 0 <= f < 6 -> 0 <= i < 2 ^ 30 -> 0 <= j < 2 ^ 30 ->
+  s2_cellIDFromFaceIJWrap f i j = s2_cellIDFromFaceIJ f i j.
+Proof. exact wrap_inside. Qed.
+Print Assumptions c01_wrap_inside.
+
+Theorem c01_edge_neighbors_same_face : forall c f l a b, at_pos c f l a b ->
   exists n0 n1 n2 n3, s2_CellID_EdgeNeighbors c = [n0; n1; n2; n3] /\
     (0 <= b - 1 -> at_pos n0 f l a (b - 1)) /\ (a + 1 < 2 ^ l -> at_pos n1 f l (a + 1) b) /\
     (b + 1 < 2 ^ l -> at_pos n2 f l a (b + 1)) /\ (0 <= a - 1 -> at_pos n3 f l (a - 1) b).
-Proof. exact EdgeNeighbors_same_face. Qed.
-Print Assumptions c01_edge_neighbors_same_face_under_H.
+Proof. exact (EdgeNeighbors_same_face wrap_inside). Qed.
+Print Assumptions c01_edge_neighbors_same_face.
 
-Theorem c01_edge_neighbors_interior_under_H : H_WRAP_INSIDE -> forall c f l a b, at_pos c f l a b ->
+Theorem c01_edge_neighbors_interior : forall c f l a b, at_pos c f l a b ->
   1 <= a -> a + 1 < 2 ^ l -> 1 <= b -> b + 1 < 2 ^ l ->
   exists n0 n1 n2 n3, s2_CellID_EdgeNeighbors c = [n0; n1; n2; n3] /\
     at_pos n0 f l a (b - 1) /\ at_pos n1 f l (a + 1) b /\ at_pos n2 f l a (b + 1) /\ at_pos n3 f l (a - 1) b /\
     NoDup [n0; n1; n2; n3] /\
     (forall n, In n [n0; n1; n2; n3] -> s2_CellID_Level n = l /\ s2_CellID_IsValid n = true /\
        n <> c /\ s2_CellID_Intersects c n = false).
-Proof. exact EdgeNeighbors_interior. Qed.
-Print Assumptions c01_edge_neighbors_interior_under_H.
+Proof. exact (EdgeNeighbors_interior wrap_inside). Qed.
+Print Assumptions c01_edge_neighbors_interior.
 
 (** every valid cell has a grid position, the position determines the cell, and the level-l ancestor
     of the leaf at (i,j) is the cell at (i / 2^(30-l), j / 2^(30-l)) (closed) *)
@@ -246,8 +255,9 @@ Print Assumptions c01_grid_positions.
     when the vertex of the level-`level` ancestor chosen by the bits of the cell's leaf (i,j) is interior
     to the face, the four entries are the ancestor (which contains c) and the three cells of that level
     around the vertex: valid, of the requested level, pairwise distinct, at the stated grid positions (closed).
-    TODO: that the chosen vertex is the one closest to c (bit 30-level-1 of i,j <-> quadrant), the
-    3-entry case at cube corners and cross-face entries (H-WRAP) — [S] complete-set oracle on every run. *)
+    [c01_vertex_neighbors_all_cases] below covers vertices on a face side and at cube corners.
+    TODO: that the chosen vertex is the one closest to c (bit 30-level-1 of i,j <-> quadrant) and the
+    grid position of cross-face entries (H-WRAP) — [S] complete-set oracle on every run. *)
 Theorem c01_vertex_neighbors_same_face : forall c f l a b level, at_pos c f l a b -> 0 <= level < l ->
   exists i j o, s2_CellID_faceIJOrientation c = (f, i, j, o) /\
   let A := i / 2 ^ (30 - level) in let B := j / 2 ^ (30 - level) in
@@ -263,14 +273,66 @@ Print Assumptions c01_vertex_neighbors_same_face.
 
 (** AllNeighbors (hand model Model/CellIDNbr.v, compared with Go on every run): the loop terminates
     with the documented 4 * (size / nbrSize) + 4 entries, for every valid cell and level >= its level.
-    TODO (not closed): per-entry statement for AllNeighbors (each same-face entry is
-    Parent (cellIDFromFaceIJ f i' j') level, hence by c01_grid_positions a valid cell of the requested
-    level at position (i'/nbrSize, j'/nbrSize), disjoint from c and touching it — the arithmetic on
-    the loop's coordinates is what is missing); checked by [S] (complete-set oracle) on every run. *)
+    Per entry ([c01_all_neighbors_entries], closed): EVERY returned cell (same-face or wrapped) is a valid
+    cell of the requested level; its leaf coordinates (i',j') lie on the ring around the cell's square
+    (within one neighbour size, not inside the square), and whenever they are on the cell's face the entry
+    is the cell at grid position (i'/nbrSize, j'/nbrSize) and does not intersect c.
+    TODO (not closed): grid position of the wrapped (cross-face) entries on the neighbouring face (H-WRAP);
+    checked by [S] (complete-set oracle against the cube model) on every run. *)
 Theorem c01_all_neighbors_count : forall c f l k level, rep c f l k -> l <= level <= 30 ->
   length (AllNeighbors c level) = Z.to_nat (4 * 2 ^ (level - l) + 4).
 Proof. exact AllNeighbors_count. Qed.
 Print Assumptions c01_all_neighbors_count.
+
+Theorem c01_all_neighbors_entries : forall c f l a b level, at_pos c f l a b -> l <= level <= 30 ->
+  Forall (nbr_ok c f l a b level) (AllNeighbors c level).
+Proof. exact AllNeighbors_entries. Qed.
+Print Assumptions c01_all_neighbors_entries.
+
+(** cellIDFromFaceIJWrap returns a valid leaf for every (f,i,j) (closed) *)
+Theorem c01_wrap_always_valid_leaf : forall f i j, exists f' k, rep (s2_cellIDFromFaceIJWrap f i j) f' 30 k.
+Proof. exact wrap_valid. Qed.
+Print Assumptions c01_wrap_always_valid_leaf.
+
+(** VertexNeighbors in all cases: vertex interior to the face, on a face side (one of isame/jsame false) or
+    at a cube corner (both false: exactly three entries).  Every entry is a valid cell of the requested
+    level; the first is the ancestor (contains c); the entries whose position stays on the face are at
+    (A+di,B), (A,B+dj), (A+di,B+dj). *)
+Theorem c01_vertex_neighbors_all_cases : forall c f l a b level, at_pos c f l a b -> 0 <= level < l ->
+  exists i j o, s2_CellID_faceIJOrientation c = (f, i, j, o) /\
+  let A := i / 2 ^ (30 - level) in let B := j / 2 ^ (30 - level) in
+  let di := if negb (Z.land i (2 ^ (30 - (level + 1))) =? 0) then 1 else -1 in
+  let dj := if negb (Z.land j (2 ^ (30 - (level + 1))) =? 0) then 1 else -1 in
+  let isame := (0 <=? A + di) && (A + di <? 2 ^ level) in
+  let jsame := (0 <=? B + dj) && (B + dj <? 2 ^ level) in
+  exists n0 n1 n2 rest, VertexNeighbors c level = n0 :: n1 :: n2 :: rest /\
+    (if isame || jsame then exists n3, rest = [n3] /\ (exists f' k', rep n3 f' level k') /\
+                                       (isame && jsame = true -> at_pos n3 f level (A + di) (B + dj))
+     else rest = []) /\
+    n0 = s2_CellID_Parent c level /\ s2_CellID_Contains n0 c = true /\ at_pos n0 f level A B /\
+    (exists f' k', rep n1 f' level k') /\ (exists f' k', rep n2 f' level k') /\
+    (isame = true -> at_pos n1 f level (A + di) B) /\ (jsame = true -> at_pos n2 f level A (B + dj)).
+Proof. exact VertexNeighbors_general. Qed.
+Print Assumptions c01_vertex_neighbors_all_cases.
+
+(** H-WRAP, face sides (closed).  side 0: i = -1, 1: i = 2^30, 2: j = -1, 3: j = 2^30; t = offset along
+    the side; [target side f t] = (g, i', j') is an explicit table (Proofs/C01_WrapSide.v); [inside side t]
+    is the boundary leaf on face f.  The float path is NOT exact here (division by nextafter(1,2)); the
+    proof brackets every intermediate value between representable dyadics (monotonicity of rounding only). *)
+Theorem c01_wrap_face_sides : forall f t, 0 <= f < 6 -> 0 <= t < 2 ^ 30 ->
+  s2_cellIDFromFaceIJWrap f (-1) t = (let '(g, i', j') := target 0 f t in s2_cellIDFromFaceIJ g i' j') /\
+  s2_cellIDFromFaceIJWrap f 1073741824 t = (let '(g, i', j') := target 1 f t in s2_cellIDFromFaceIJ g i' j') /\
+  s2_cellIDFromFaceIJWrap f t (-1) = (let '(g, i', j') := target 2 f t in s2_cellIDFromFaceIJ g i' j') /\
+  s2_cellIDFromFaceIJWrap f t 1073741824 = (let '(g, i', j') := target 3 f t in s2_cellIDFromFaceIJ g i' j').
+Proof. exact wrap_sides. Qed.
+Print Assumptions c01_wrap_face_sides.
+
+Theorem c01_wrap_face_sides_target_adjacent : forall side f t, 0 <= side < 4 -> 0 <= f < 6 -> 0 <= t < 2 ^ 30 ->
+  (let '(g, i', j') := target side f t in 0 <= g < 6 /\ g <> f /\ 0 <= i' < 2 ^ 30 /\ 0 <= j' < 2 ^ 30) /\
+  (let '(ib, jb) := inside side t in let '(g, i', j') := target side f t in
+   share_edge 1073741824 f ib jb g i' j').
+Proof. intros side f t Hs Hf Ht. split; [exact (target_range side f t Hs Hf Ht)|exact (target_adjacent side f t Hs Hf Ht)]. Qed.
+Print Assumptions c01_wrap_face_sides_target_adjacent.
 
 (** points -------------------------------------------------------------------- *)
 Theorem c01_point_leaf_is_valid : forall p, exists f k, 0 <= f < 6 /\ rep (s2_cellIDFromPoint p) f 30 k /\
